@@ -177,7 +177,7 @@ func RunCoordinator(chk *Check, tier string, seed int64) int {
 			cmd.Env = append(cmd.Env, "VERIF_WAL=1")
 		}
 		if chk.Race {
-			cmd.Env = append(cmd.Env, fmt.Sprintf("GORACE=halt_on_error=0 log_path=%s/race.%d", dir, shard))
+			cmd.Env = append(cmd.Env, fmt.Sprintf("GORACE=halt_on_error=0 exitcode=0 log_path=%s/race.%d", dir, shard))
 		}
 		e := cmd.Run()
 		ef.Close()
